@@ -946,6 +946,41 @@ async fn run_timeout_probe(wait_ms: u64) -> Option<String> {
     match r { Ok(Ok(_)) => Some("ok".into()), Ok(Err(e)) => Some(err_class(&e)), Err(_) => None }
 }
 
+/// A silent peer, one request outstanding, and further requests arriving on the
+/// same connection every `gap_ms` (more often than once per response timeout):
+/// the FIRST request must still end with its timeout.  Counted in requests, not
+/// in wall-clock time: returns how many further requests had been submitted when
+/// the first one completed (None = not even after `total` of them).
+async fn run_new_requests_traffic(timeout_ms: u64, total: u64, gap_ms: u64) -> (Option<u64>, Option<String>) {
+    let (client, server) = tokio::io::duplex(1 << 16);
+    let mut cfg = stream::Config::new();
+    cfg.set_response_timeout(Duration::from_millis(timeout_ms));
+    let (conn, transport) = stream::Connection::<RequestMessage<Vec<u8>>, RequestMessageMulti<Vec<u8>>>::with_config(client, cfg);
+    let th = tokio::spawn(transport.run());
+    let (rd, _wr) = tokio::io::split(server);
+    let ph = tokio::spawn(peer_reader(rd, Arc::new(Mutex::new(vec![]))));
+    let done: Arc<Mutex<Option<String>>> = Arc::new(Mutex::new(None));
+    let d2 = done.clone();
+    let mut g = SendRequest::send_request(&conn, request_for(&question(0)));
+    let first = tokio::spawn(async move {
+        let r = g.get_response().await;
+        *d2.lock().unwrap() = Some(match r { Ok(_) => "ok".to_string(), Err(e) => err_class(&e) });
+    });
+    let mut others = Vec::new();
+    let mut at = None;
+    for k in 0..total {
+        tokio::time::sleep(Duration::from_millis(gap_ms)).await;
+        if done.lock().unwrap().is_some() { at = Some(k); break; }
+        let mut g = SendRequest::send_request(&conn, request_for(&question(1 + k as usize)));
+        others.push(tokio::spawn(async move { let _ = g.get_response().await; }));
+    }
+    if at.is_none() && done.lock().unwrap().is_some() { at = Some(total); }
+    let r = done.lock().unwrap().clone();
+    first.abort(); for o in others { o.abort(); } ph.abort(); th.abort();
+    drop(conn);
+    (at, r)
+}
+
 fn part_stream(out: &mut Out, r: &mut Rng, a: &Args) -> (u64, u64) {
     let rt = tokio::runtime::Builder::new_current_thread().enable_all().build().unwrap();
     // Does the configured response timeout take effect at all?  If it does not,
@@ -1008,6 +1043,16 @@ fn part_stream(out: &mut Out, r: &mut Rng, a: &Args) -> (u64, u64) {
     out.oracle_case(&case, true, "stream_unrelated_traffic");
     out.check(at.map_or(false, |k| k <= 20), "timeout_extended_by_unknown_id_replies", &case,
         &format!("request completed after {:?} unsolicited replies ({:?}); response timeout is {} ms, replies every {} ms", at, res, STREAM_TIMEOUT_MS, STREAM_TIMEOUT_MS / 3));
+    // new requests must not keep an older request waiting beyond its timeout:
+    // timeout 200 ms, a new request every 60 ms, up to 20 of them (6 x the
+    // timeout); the first request has to time out after about 3 of them (8
+    // leaves a wide margin, about 2.4 x the timeout)
+    let case = "stream new-requests-traffic timeout=200ms gap=60ms total=20".to_string();
+    out.begin(&case);
+    let (at, res) = rt.block_on(run_new_requests_traffic(200, 20, 60));
+    out.oracle_case(&case, true, "stream_new_requests_traffic");
+    out.check(at.map_or(false, |k| k <= 8), "timeout_extended_by_new_requests", &case,
+        &format!("the first request completed after {:?} further requests ({:?}); response timeout 200 ms, a new request every 60 ms, silent peer", at, res));
     (okd, errd)
 }
 
